@@ -193,4 +193,535 @@ theorem hexasmMain_not_line (core : AsmCore) {args : List String} (fs : Fs)
     | none => simp [hexasmBody, hfn]
     | some f => exact absurd ⟨_, line_of_hexasmLoop ho hfn⟩ h
 
+/-! ### xcmp -/
+
+theorem xcmpActionOf_some {a : String} {act : Action} (h : xcmpActionOf a = some act) :
+    a ∈ xcmpSyn.flags := by
+  unfold xcmpActionOf at h
+  simp only [xcmpSyn, List.mem_cons, List.not_mem_nil, or_false]
+  repeat' split at h
+  all_goals simp_all
+
+theorem xcmpActionOf_none {a : String} (h : xcmpActionOf a = none) (hm : a ≠ "--memory-info") :
+    a ∉ xcmpSyn.flags := by
+  unfold xcmpActionOf at h
+  simp only [xcmpSyn, List.mem_cons, List.not_mem_nil, or_false]
+  repeat' split at h
+  all_goals simp_all
+
+theorem xcmpActionOf_of_not_flag {a : String} (h : a ∉ xcmpSyn.flags) : xcmpActionOf a = none := by
+  simp only [xcmpSyn, List.mem_cons, List.not_mem_nil, or_false, not_or] at h
+  simp [xcmpActionOf, h]
+
+theorem xcmpLoop_cons (a : String) (rest : List String) (o : XcmpOpts) :
+    xcmpLoop (a :: rest) o =
+    if a = "-h" ∨ a = "--help" then .help
+    else match xcmpActionOf a with
+    | some act => xcmpLoop rest { o with action := act }
+    | none =>
+      if a = "--memory-info" then xcmpLoop rest { o with reportMemoryInfo := true }
+      else if a = "--output" ∨ a = "-o" then
+        match rest with
+        | [] => .exn
+        | v :: rest' => xcmpLoop rest' { o with outputFilename := v }
+      else if dash a then .exn
+      else
+        match o.inputFilename with
+        | none => xcmpLoop rest { o with inputFilename := some a }
+        | some _ => .exn := by
+  cases rest <;> simp only [xcmpLoop] <;> split <;> (try rfl) <;> split <;> rfl
+
+def xcmpDone (items : List Item) (o : XcmpOpts) (fn : Option String) : XcmpOpts :=
+  { action := (lastSome flagAction items).getD o.action,
+    inputFilename := fn,
+    outputFilename := (lastSome (optVal asmOutNames) items).getD o.outputFilename,
+    reportMemoryInfo := o.reportMemoryInfo || hasFlag ["--memory-info"] items }
+
+theorem xcmpLoop_render (items : List Item) (hv : ∀ i ∈ items, i.Valid xcmpSyn) (o : XcmpOpts) :
+    xcmpLoop (render items) o =
+      match o.inputFilename.toList ++ files items with
+      | [] => .done (xcmpDone items o none)
+      | [f] => .done (xcmpDone items o (some f))
+      | _ => .exn := by
+  induction items generalizing o with
+  | nil =>
+    rcases o with ⟨a, fn, out, m⟩
+    cases fn <;> simp [render, xcmpLoop, files, xcmpDone, hasFlag, lastSome]
+  | cons it is ih =>
+    have hv' : ∀ i ∈ is, i.Valid xcmpSyn := fun i hi => hv i (List.mem_cons_of_mem _ hi)
+    have hit := hv it List.mem_cons_self
+    cases it with
+    | flag n =>
+      simp only [Item.Valid, xcmpSyn, List.mem_cons, List.not_mem_nil, or_false] at hit
+      rcases hit with rfl | rfl | rfl | rfl | rfl | rfl | rfl | rfl | rfl
+      all_goals
+        simp only [render, Item.render, List.cons_append, List.nil_append, xcmpLoop_cons]
+        simp only [String.reduceEq, or_self, ↓reduceIte, xcmpActionOf]
+        rw [ih hv']
+        simp [files, xcmpDone, hasFlag, lastSome_getD_cons, optVal, flagAction, xcmpActionOf]
+    | opt n v =>
+      simp only [Item.Valid, xcmpSyn, List.mem_cons, List.not_mem_nil, or_false] at hit
+      rcases hit with rfl | rfl
+      all_goals
+        simp only [render, Item.render, List.cons_append, List.nil_append, xcmpLoop_cons]
+        simp only [String.reduceEq, or_self, or_true, true_or, ↓reduceIte, xcmpActionOf]
+        rw [ih hv']
+        simp [files, xcmpDone, hasFlag, lastSome_getD_cons, optVal, asmOutNames, flagAction]
+    | file f =>
+      simp only [Item.Valid, forall_const] at hit
+      obtain ⟨hh, hfl, hop, hd⟩ := hit
+      have hact := xcmpActionOf_of_not_flag hfl
+      simp only [xcmpSyn, List.mem_cons, List.not_mem_nil, or_false, not_or] at hh hfl hop hd
+      simp only [render, Item.render, List.cons_append, List.nil_append, xcmpLoop_cons]
+      simp only [hh, hact, hfl, hop, hd, or_self, ↓reduceIte, Bool.false_eq_true]
+      rcases o with ⟨a, fn, out, m⟩
+      cases fn with
+      | none =>
+        simp only []
+        rw [ih hv']
+        simp only [Option.toList, List.nil_append, List.cons_append, files]
+        cases files is with
+        | nil => simp [xcmpDone, hasFlag, lastSome_getD_cons, optVal, flagAction]
+        | cons g gs => simp
+      | some g =>
+        simp [files]
+
+theorem xcmpLoop_done (args : List String) (o o' : XcmpOpts) (h : xcmpLoop args o = .done o') :
+    ∃ items, (∀ i ∈ items, i.Valid xcmpSyn) ∧ args = render items := by
+  fun_induction xcmpLoop args o
+  · exact ⟨[], by simp, rfl⟩
+  · cases h
+  · rename_i a _ _ _ act hact ih
+    exact sentence_cons _ (.flag a) (xcmpActionOf_some hact) (ih h)
+  · rename_i ih
+    exact sentence_cons _ (.flag "--memory-info") (by simp [Item.Valid, xcmpSyn]) (ih h)
+  · cases h
+  · rename_i a _ _ _ _ ho v _ ih
+    exact sentence_cons _ (.opt a v) (by rcases ho with rfl | rfl <;> simp [Item.Valid, xcmpSyn]) (ih h)
+  · cases h
+  · rename_i a _ _ h1 h2 h3 h4 h5 _ ih
+    refine sentence_cons _ (.file a) ?_ (ih h)
+    have := xcmpActionOf_none h2 h3
+    simp only [not_or] at h1 h4
+    simp only [Item.Valid, forall_const]
+    refine ⟨?_, this, ?_, ?_⟩
+    · simp [xcmpSyn, h1]
+    · simp [xcmpSyn, h4]
+    · intro _; simpa using h5
+  · cases h
+
+structure XcmpCmd where
+  action : Action
+  mem : Bool
+  file : String
+  out : String
+
+def XcmpCmd.opts (c : XcmpCmd) : XcmpOpts := ⟨c.action, some c.file, c.out, c.mem⟩
+
+def xcmpCmdOf (items : List Item) (f : String) : XcmpCmd :=
+  ⟨(lastSome flagAction items).getD .binary, hasFlag ["--memory-info"] items, f,
+   (lastSome (optVal asmOutNames) items).getD "a.out"⟩
+
+/-- `args` is a well-formed xcmp command line and `c` is what it says (the action is that of
+    the last action flag, `EMIT_BINARY` if there is none). -/
+def XcmpLine (args : List String) (c : XcmpCmd) : Prop :=
+  ∃ items f, (∀ i ∈ items, i.Valid xcmpSyn) ∧ args = render items ∧ files items = [f] ∧
+    c = xcmpCmdOf items f
+
+theorem xcmpLoop_of_line {args : List String} {c : XcmpCmd} (h : XcmpLine args c) :
+    xcmpLoop args {} = .done c.opts := by
+  obtain ⟨items, f, hv, rfl, hf, rfl⟩ := h
+  rw [xcmpLoop_render items hv]
+  simp [hf, xcmpDone, xcmpCmdOf, XcmpCmd.opts]
+
+theorem line_of_xcmpLoop {args : List String} {o : XcmpOpts} {f : String}
+    (h : xcmpLoop args {} = .done o) (hf : o.inputFilename = some f) :
+    XcmpLine args ⟨o.action, o.reportMemoryInfo, f, o.outputFilename⟩ := by
+  obtain ⟨items, hv, rfl⟩ := xcmpLoop_done _ _ _ h
+  rw [xcmpLoop_render items hv] at h
+  simp only [Option.toList, List.nil_append] at h
+  split at h
+  · cases h; simp [xcmpDone] at hf
+  · rename_i g hg
+    cases h
+    simp only [xcmpDone, Option.some.injEq] at hf
+    subst hf
+    exact ⟨items, g, hv, rfl, hg, by simp [xcmpDone, xcmpCmdOf]⟩
+  · cases h
+
+theorem XcmpLine.unique {args : List String} {c₁ c₂ : XcmpCmd} (h₁ : XcmpLine args c₁)
+    (h₂ : XcmpLine args c₂) : c₁ = c₂ := by
+  have e := (xcmpLoop_of_line h₁).symm.trans (xcmpLoop_of_line h₂)
+  rcases c₁ with ⟨a, b, c, d⟩
+  rcases c₂ with ⟨a', b', c', d'⟩
+  simp only [XcmpCmd.opts, Args.done.injEq, XcmpOpts.mk.injEq, Option.some.injEq] at e
+  obtain ⟨rfl, rfl, rfl, rfl⟩ := e
+  rfl
+
+theorem xcmpMain_of_line (xc : XcmpCore) {args : List String} {c : XcmpCmd} (fs : Fs)
+    (h : XcmpLine args c) : xcmpMain xc args fs = xcmpBody xc c.opts fs := by
+  simp only [xcmpMain, xcmpLoop_of_line h]
+
+theorem xcmpMain_not_line (xc : XcmpCore) {args : List String} (fs : Fs)
+    (h : ¬ ∃ c, XcmpLine args c) :
+    (xcmpMain xc args fs).status = 1 ∧ (xcmpMain xc args fs).fs = fs ∧
+    ((xcmpMain xc args fs).stderr = true ∨ (xcmpMain xc args fs).stdout = .usage) := by
+  unfold xcmpMain
+  split
+  · simp
+  · simp
+  · rename_i o ho
+    cases hfn : o.inputFilename with
+    | none => simp [xcmpBody, hfn]
+    | some f => exact absurd ⟨_, line_of_xcmpLoop ho hfn⟩ h
+
+/-! ### hexsim -/
+
+theorem hexsimLoop_cons (a : String) (rest : List String) (o : SimOpts) :
+    hexsimLoop (a :: rest) o =
+    if a = "-d" ∨ a = "--dump" then hexsimLoop rest { o with dumpBinary := true }
+    else if a = "-t" ∨ a = "--trace" then hexsimLoop rest { o with trace := true }
+    else if a = "--max-cycles" then
+      match rest with
+      | [] => .exn
+      | v :: rest' =>
+        match stoull v with
+        | none => .exn
+        | some n => hexsimLoop rest' { o with maxCycles := n }
+    else if a = "-h" ∨ a = "--help" then .help
+    else
+      match o.filename with
+      | none => hexsimLoop rest { o with filename := some a }
+      | some _ => .exn := by
+  cases rest with
+  | nil => rfl
+  | cons v r =>
+    simp only [hexsimLoop]
+    split
+    · rfl
+    · split
+      · rfl
+      · split
+        · cases stoull v <;> rfl
+        · rfl
+
+def simDone (items : List Item) (o : SimOpts) (fn : Option String) : SimOpts :=
+  { filename := fn,
+    dumpBinary := o.dumpBinary || hasFlag ["-d", "--dump"] items,
+    trace := o.trace || hasFlag ["-t", "--trace"] items,
+    maxCycles := (lastSome cyclesVal items).getD o.maxCycles }
+
+theorem hexsimLoop_render (items : List Item) (hv : ∀ i ∈ items, i.Valid hexsimSyn) (o : SimOpts) :
+    hexsimLoop (render items) o =
+      if cyclesParse items then
+        match o.filename.toList ++ files items with
+        | [] => .done (simDone items o none)
+        | [f] => .done (simDone items o (some f))
+        | _ => .exn
+      else .exn := by
+  induction items generalizing o with
+  | nil =>
+    rcases o with ⟨fn, d, t, m⟩
+    cases fn <;> simp [render, hexsimLoop, files, simDone, hasFlag, lastSome, cyclesParse]
+  | cons it is ih =>
+    have hv' : ∀ i ∈ is, i.Valid hexsimSyn := fun i hi => hv i (List.mem_cons_of_mem _ hi)
+    have hit := hv it List.mem_cons_self
+    cases it with
+    | flag n =>
+      simp only [Item.Valid, hexsimSyn, List.mem_cons, List.not_mem_nil, or_false] at hit
+      rcases hit with rfl | rfl | rfl | rfl
+      all_goals
+        simp only [render, Item.render, List.cons_append, List.nil_append, hexsimLoop_cons]
+        simp only [String.reduceEq, or_self, or_true, true_or, ↓reduceIte]
+        rw [ih hv']
+        simp [files, simDone, hasFlag, lastSome_getD_cons, cyclesVal, cyclesParse]
+    | opt n v =>
+      simp only [Item.Valid, hexsimSyn, List.mem_cons, List.not_mem_nil, or_false] at hit
+      subst hit
+      simp only [render, Item.render, List.cons_append, List.nil_append, hexsimLoop_cons]
+      simp only [String.reduceEq, or_self, ↓reduceIte]
+      cases hst : stoull v with
+      | none => simp [cyclesParse, hst]
+      | some k =>
+        simp only []
+        rw [ih hv']
+        simp [files, simDone, hasFlag, lastSome_getD_cons, cyclesVal, cyclesParse, hst]
+    | file f =>
+      simp only [Item.Valid, hexsimSyn, List.mem_cons, List.not_mem_nil, or_false, not_or] at hit
+      obtain ⟨⟨h1, h2⟩, ⟨h3, h4, h5, h6⟩, h7, _⟩ := hit
+      simp only [render, Item.render, List.cons_append, List.nil_append, hexsimLoop_cons]
+      simp only [h1, h2, h3, h4, h5, h6, h7, or_self, ↓reduceIte]
+      rcases o with ⟨fn, d, t, m⟩
+      cases fn with
+      | none =>
+        simp only []
+        rw [ih hv']
+        simp only [Option.toList, List.nil_append, List.cons_append, files, cyclesParse]
+        cases files is with
+        | nil => simp [simDone, hasFlag, lastSome_getD_cons, cyclesVal]
+        | cons g gs => simp only []; split <;> simp_all
+      | some g =>
+        simp only [files, cyclesParse, Option.toList, List.cons_append, List.nil_append]
+        by_cases hc : cyclesParse is = true <;> simp [hc]
+
+theorem hexsimLoop_done (args : List String) (o o' : SimOpts) (h : hexsimLoop args o = .done o') :
+    ∃ items, (∀ i ∈ items, i.Valid hexsimSyn) ∧ args = render items := by
+  fun_induction hexsimLoop args o
+  · exact ⟨[], by simp, rfl⟩
+  · rename_i a _ _ ha ih
+    exact sentence_cons _ (.flag a) (by rcases ha with rfl | rfl <;> simp [Item.Valid, hexsimSyn]) (ih h)
+  · rename_i a _ _ _ ha ih
+    exact sentence_cons _ (.flag a) (by rcases ha with rfl | rfl <;> simp [Item.Valid, hexsimSyn]) (ih h)
+  · cases h
+  · cases h
+  · rename_i v _ _ _ _ _ ih
+    exact sentence_cons _ (.opt "--max-cycles" v) (by simp [Item.Valid, hexsimSyn]) (ih h)
+  · cases h
+  · rename_i a _ _ h1 h2 h3 h4 _ ih
+    refine sentence_cons _ (.file a) ?_ (ih h)
+    simp only [not_or] at h1 h2 h4
+    simp [Item.Valid, hexsimSyn, h1, h2, h3, h4]
+  · cases h
+
+structure SimCmd where
+  dump : Bool
+  trace : Bool
+  maxCycles : Nat
+  file : String
+
+def SimCmd.opts (c : SimCmd) : SimOpts := ⟨some c.file, c.dump, c.trace, c.maxCycles⟩
+
+def simCmdOf (items : List Item) (f : String) : SimCmd :=
+  ⟨hasFlag ["-d", "--dump"] items, hasFlag ["-t", "--trace"] items,
+   (lastSome cyclesVal items).getD 0, f⟩
+
+/-- `args` is a well-formed hexsim command line and `c` is what it says: exactly one file, every
+    `--max-cycles` value a number (the last one counts). -/
+def HexsimLine (args : List String) (c : SimCmd) : Prop :=
+  ∃ items f, (∀ i ∈ items, i.Valid hexsimSyn) ∧ args = render items ∧ files items = [f] ∧
+    cyclesParse items = true ∧ c = simCmdOf items f
+
+theorem hexsimLoop_of_line {args : List String} {c : SimCmd} (h : HexsimLine args c) :
+    hexsimLoop args {} = .done c.opts := by
+  obtain ⟨items, f, hv, rfl, hf, hc, rfl⟩ := h
+  rw [hexsimLoop_render items hv]
+  simp [hf, hc, simDone, simCmdOf, SimCmd.opts]
+
+theorem line_of_hexsimLoop {args : List String} {o : SimOpts} {f : String}
+    (h : hexsimLoop args {} = .done o) (hf : o.filename = some f) :
+    HexsimLine args ⟨o.dumpBinary, o.trace, o.maxCycles, f⟩ := by
+  obtain ⟨items, hv, rfl⟩ := hexsimLoop_done _ _ _ h
+  rw [hexsimLoop_render items hv] at h
+  simp only [Option.toList, List.nil_append] at h
+  split at h
+  · rename_i hc
+    split at h
+    · cases h; simp [simDone] at hf
+    · rename_i g hg
+      cases h
+      simp only [simDone, Option.some.injEq] at hf
+      subst hf
+      exact ⟨items, g, hv, rfl, hg, hc, by simp [simDone, simCmdOf]⟩
+    · cases h
+  · cases h
+
+theorem HexsimLine.unique {args : List String} {c₁ c₂ : SimCmd} (h₁ : HexsimLine args c₁)
+    (h₂ : HexsimLine args c₂) : c₁ = c₂ := by
+  have e := (hexsimLoop_of_line h₁).symm.trans (hexsimLoop_of_line h₂)
+  rcases c₁ with ⟨a, b, c, d⟩
+  rcases c₂ with ⟨a', b', c', d'⟩
+  simp only [SimCmd.opts, Args.done.injEq, SimOpts.mk.injEq, Option.some.injEq] at e
+  obtain ⟨rfl, rfl, rfl, rfl⟩ := e
+  rfl
+
+theorem hexsimMain_of_line (sim : SimCore) {args : List String} {c : SimCmd} (fs : Fs)
+    (h : HexsimLine args c) : hexsimMain sim args fs = hexsimBody sim c.opts fs := by
+  simp only [hexsimMain, hexsimLoop_of_line h]
+
+theorem hexsimMain_not_line (sim : SimCore) {args : List String} (fs : Fs)
+    (h : ¬ ∃ c, HexsimLine args c) :
+    (hexsimMain sim args fs).status = 1 ∧ (hexsimMain sim args fs).fs = fs ∧
+    ((hexsimMain sim args fs).stderr = true ∨ (hexsimMain sim args fs).stdout = .usage) := by
+  unfold hexsimMain
+  split
+  · simp
+  · simp
+  · rename_i o ho
+    cases hfn : o.filename with
+    | none => simp [hexsimBody, hfn]
+    | some f => exact absurd ⟨_, line_of_hexsimLoop ho hfn⟩ h
+
+/-! ### xrun -/
+
+theorem xrunLoop_cons (a : String) (rest : List String) (o : RunOpts) :
+    xrunLoop (a :: rest) o =
+    if a = "-h" ∨ a = "--help" then .help
+    else if a = "-t" ∨ a = "--trace" then xrunLoop rest { o with trace := true }
+    else if a = "--max-cycles" then
+      match rest with
+      | [] => .exn
+      | v :: rest' =>
+        match stoull v with
+        | none => .exn
+        | some n => xrunLoop rest' { o with maxCycles := n }
+    else if dash a then .exn
+    else
+      match o.inputFilename with
+      | none => xrunLoop rest { o with inputFilename := some a }
+      | some _ => .exn := by
+  cases rest with
+  | nil => rfl
+  | cons v r =>
+    simp only [xrunLoop]
+    split
+    · rfl
+    · split
+      · rfl
+      · split
+        · cases stoull v <;> rfl
+        · rfl
+
+def runDone (items : List Item) (o : RunOpts) (fn : Option String) : RunOpts :=
+  { inputFilename := fn,
+    trace := o.trace || hasFlag ["-t", "--trace"] items,
+    maxCycles := (lastSome cyclesVal items).getD o.maxCycles }
+
+theorem xrunLoop_render (items : List Item) (hv : ∀ i ∈ items, i.Valid xrunSyn) (o : RunOpts) :
+    xrunLoop (render items) o =
+      if cyclesParse items then
+        match o.inputFilename.toList ++ files items with
+        | [] => .done (runDone items o none)
+        | [f] => .done (runDone items o (some f))
+        | _ => .exn
+      else .exn := by
+  induction items generalizing o with
+  | nil =>
+    rcases o with ⟨fn, t, m⟩
+    cases fn <;> simp [render, xrunLoop, files, runDone, hasFlag, lastSome, cyclesParse]
+  | cons it is ih =>
+    have hv' : ∀ i ∈ is, i.Valid xrunSyn := fun i hi => hv i (List.mem_cons_of_mem _ hi)
+    have hit := hv it List.mem_cons_self
+    cases it with
+    | flag n =>
+      simp only [Item.Valid, xrunSyn, List.mem_cons, List.not_mem_nil, or_false] at hit
+      rcases hit with rfl | rfl
+      all_goals
+        simp only [render, Item.render, List.cons_append, List.nil_append, xrunLoop_cons]
+        simp only [String.reduceEq, or_self, or_true, true_or, ↓reduceIte]
+        rw [ih hv']
+        simp [files, runDone, hasFlag, lastSome_getD_cons, cyclesVal, cyclesParse]
+    | opt n v =>
+      simp only [Item.Valid, xrunSyn, List.mem_cons, List.not_mem_nil, or_false] at hit
+      subst hit
+      simp only [render, Item.render, List.cons_append, List.nil_append, xrunLoop_cons]
+      simp only [String.reduceEq, or_self, ↓reduceIte]
+      cases hst : stoull v with
+      | none => simp [cyclesParse, hst]
+      | some k =>
+        simp only []
+        rw [ih hv']
+        simp [files, runDone, hasFlag, lastSome_getD_cons, cyclesVal, cyclesParse, hst]
+    | file f =>
+      simp only [Item.Valid, xrunSyn, List.mem_cons, List.not_mem_nil, or_false, not_or,
+        forall_const] at hit
+      obtain ⟨⟨h1, h2⟩, ⟨h3, h4⟩, h5, h6⟩ := hit
+      simp only [render, Item.render, List.cons_append, List.nil_append, xrunLoop_cons]
+      simp only [h1, h2, h3, h4, h5, h6, or_self, ↓reduceIte, Bool.false_eq_true]
+      rcases o with ⟨fn, t, m⟩
+      cases fn with
+      | none =>
+        simp only []
+        rw [ih hv']
+        simp only [Option.toList, List.nil_append, List.cons_append, files, cyclesParse]
+        cases files is with
+        | nil => simp [runDone, hasFlag, lastSome_getD_cons, cyclesVal]
+        | cons g gs => simp only []; split <;> simp_all
+      | some g =>
+        simp only [files, cyclesParse, Option.toList, List.cons_append, List.nil_append]
+        by_cases hc : cyclesParse is = true <;> simp [hc]
+
+theorem xrunLoop_done (args : List String) (o o' : RunOpts) (h : xrunLoop args o = .done o') :
+    ∃ items, (∀ i ∈ items, i.Valid xrunSyn) ∧ args = render items := by
+  fun_induction xrunLoop args o
+  · exact ⟨[], by simp, rfl⟩
+  · cases h
+  · rename_i a _ _ _ ha ih
+    exact sentence_cons _ (.flag a) (by rcases ha with rfl | rfl <;> simp [Item.Valid, xrunSyn]) (ih h)
+  · cases h
+  · cases h
+  · rename_i v _ _ _ _ _ ih
+    exact sentence_cons _ (.opt "--max-cycles" v) (by simp [Item.Valid, xrunSyn]) (ih h)
+  · cases h
+  · rename_i a _ _ h1 h2 h3 h4 _ ih
+    refine sentence_cons _ (.file a) ?_ (ih h)
+    simp only [not_or] at h1 h2
+    simp [Item.Valid, xrunSyn, h1, h2, h3, h4]
+  · cases h
+
+structure RunCmd where
+  trace : Bool
+  maxCycles : Nat
+  file : String
+
+def RunCmd.opts (c : RunCmd) : RunOpts := ⟨some c.file, c.trace, c.maxCycles⟩
+
+def runCmdOf (items : List Item) (f : String) : RunCmd :=
+  ⟨hasFlag ["-t", "--trace"] items, (lastSome cyclesVal items).getD 0, f⟩
+
+/-- `args` is a well-formed xrun command line and `c` is what it says. -/
+def XrunLine (args : List String) (c : RunCmd) : Prop :=
+  ∃ items f, (∀ i ∈ items, i.Valid xrunSyn) ∧ args = render items ∧ files items = [f] ∧
+    cyclesParse items = true ∧ c = runCmdOf items f
+
+theorem xrunLoop_of_line {args : List String} {c : RunCmd} (h : XrunLine args c) :
+    xrunLoop args {} = .done c.opts := by
+  obtain ⟨items, f, hv, rfl, hf, hc, rfl⟩ := h
+  rw [xrunLoop_render items hv]
+  simp [hf, hc, runDone, runCmdOf, RunCmd.opts]
+
+theorem line_of_xrunLoop {args : List String} {o : RunOpts} {f : String}
+    (h : xrunLoop args {} = .done o) (hf : o.inputFilename = some f) :
+    XrunLine args ⟨o.trace, o.maxCycles, f⟩ := by
+  obtain ⟨items, hv, rfl⟩ := xrunLoop_done _ _ _ h
+  rw [xrunLoop_render items hv] at h
+  simp only [Option.toList, List.nil_append] at h
+  split at h
+  · rename_i hc
+    split at h
+    · cases h; simp [runDone] at hf
+    · rename_i g hg
+      cases h
+      simp only [runDone, Option.some.injEq] at hf
+      subst hf
+      exact ⟨items, g, hv, rfl, hg, hc, by simp [runDone, runCmdOf]⟩
+    · cases h
+  · cases h
+
+theorem XrunLine.unique {args : List String} {c₁ c₂ : RunCmd} (h₁ : XrunLine args c₁)
+    (h₂ : XrunLine args c₂) : c₁ = c₂ := by
+  have e := (xrunLoop_of_line h₁).symm.trans (xrunLoop_of_line h₂)
+  rcases c₁ with ⟨a, b, c⟩
+  rcases c₂ with ⟨a', b', c'⟩
+  simp only [RunCmd.opts, Args.done.injEq, RunOpts.mk.injEq, Option.some.injEq] at e
+  obtain ⟨rfl, rfl, rfl⟩ := e
+  rfl
+
+theorem xrunMain_of_line (xc : XcmpCore) (sim : SimCore) {args : List String} {c : RunCmd} (fs : Fs)
+    (h : XrunLine args c) : xrunMain xc sim args fs = xrunBody xc sim c.opts fs := by
+  simp only [xrunMain, xrunLoop_of_line h]
+
+/-- xrun without a well-formed command line: exit 1, nothing touched, something printed. -/
+theorem xrunMain_not_line (xc : XcmpCore) (sim : SimCore) {args : List String} (fs : Fs)
+    (h : ¬ ∃ c, XrunLine args c) :
+    (xrunMain xc sim args fs).status = 1 ∧ (xrunMain xc sim args fs).fs = fs ∧
+    ((xrunMain xc sim args fs).stderr = true ∨ (xrunMain xc sim args fs).stdout = .usage) := by
+  unfold xrunMain
+  split
+  · simp
+  · simp
+  · rename_i o ho
+    cases hfn : o.inputFilename with
+    | none => simp [xrunBody, hfn]
+    | some f => exact absurd ⟨_, line_of_xrunLoop ho hfn⟩ h
+
 end Hex.Cli
